@@ -3,6 +3,8 @@
 import Driver.Common
 import Gvlean.Spec.Uuid
 import Gvlean.Spec.Url
+import Gvlean.Spec.Email
+import Gvlean.Spec.Ascii
 
 open Go Driver
 
@@ -17,6 +19,9 @@ def stepSpec (line : String) : String :=
       match fn with
       | "uuid" => showBool (Spec.uuidSpecB b)
       | "url" => showBool (Spec.urlSpecB b)
+      | "email" => showBool (Spec.emailSpecB b)
+      | "alpha" => showBool (Spec.alphaSpecB b)
+      | "numeric" => showBool (Spec.numericSpecB b)
       | _ => "bad-op"
   | _ => "bad-op"
 
